@@ -118,10 +118,8 @@ theorem normalizeDistribution_ni [Inhabited S] (sc : Scalar S) {isZero : S → B
     generalize numDimsBody (mkC isZero fps d₂ c) = D
     generalize numPoints (mkC isZero fps d₂ c) = N
     generalize hF : (fun (n : Nat) (pt : List S) => List.mapIdx (fun d x =>
-        match (((List.range N).map fun n => (List.range D).map fun d => meanOpt sc (columnVals (mkC isZero fps d₂ c) allPoints n d)).getD n []).getD d none,
-          (((List.range N).map fun n => (List.range D).map fun d => stdOpt sc (columnVals (mkC isZero fps d₂ c) allPoints n d)).getD n []).getD d none with
-        | some m, some s => sc.div (sc.sub x m) s
-        | _, _ => x) pt) = F
+        distMap sc ((((List.range N).map fun n => (List.range D).map fun d => meanOpt sc (columnVals (mkC isZero fps d₂ c) allPoints n d)).getD n []).getD d none)
+          ((((List.range N).map fun n => (List.range D).map fun d => stdOpt sc (columnVals (mkC isZero fps d₂ c) allPoints n d)).getD n []).getD d none) x) pt) = F
     have hlen : ∀ i pt, (F i pt).length = pt.length := by intro i pt; rw [← hF]; simp
     have e : ∀ d : A4 S, deriveMissing isZero d c = deriveMissing isZero (d.map (List.map fun pe => pe.mapIdx F)) c :=
       fun d => (derive_mapIdx isZero F hlen d c).symm
